@@ -62,9 +62,54 @@ def run(ctx, progs):
                 if succ == (call_true if want_true else call_false):
                     return True
         return False
+    # path form: the three tests may be folded into one boolean (`let visible = !deleted && root_ok && filter_ok; if !visible
+    # {continue}`), so the decision is read off the paths from the element binding to the push, with the three calls as atoms
+    from sa import boolpaths
+    loop_next = [(b_, t_) for b_, t_ in f.calls() if callee_of(t_).endswith("Iterator>::next") and any("ForLoop" in m for m in (t_.get("macros") or []))
+                 and any(x[0] == "call" and callee_of(x[2]).endswith("HnswIndex::search") for x in sl.sources(t_["args"][0]))]
+
+    def call_atom(t_, val):
+        cal_ = callee_of(t_)
+        if cal_.endswith("SegmentReader::is_deleted"):
+            return ("atom", ("call", "deleted"), False)
+        if cal_.endswith("reader::passes_root_filter"):
+            return ("atom", ("call", "root"), False)
+        if cal_.endswith("::passes_filter"):
+            return ("atom", ("call", "vf"), False)
+        if cal_.endswith(("Option::<T>::map_or", "Option::<T>::is_none_or")) and len(t_["args"]) >= 2:
+            # `filter.map_or(true, |f| passes_filter(.., f))`: absent filter or passing filter
+            dflt_true = cal_.endswith("is_none_or") or (op_const(t_["args"][1]) or {}).get("int") == 1
+            for x in sl.sources(t_["args"][-1]):
+                if x[0] == "agg" and x[3].get("closure") and P.fn(x[3]["closure"]) is not None and dflt_true:
+                    h_ = P.fn(x[3]["closure"])
+                    rets_ = [d for d in h_.defs().get(0, [])]
+                    if len(rets_) == 1 and rets_[0]["k"] == "call" and callee_of(rets_[0]["t"]).endswith("::passes_filter"):
+                        return ("atom", ("call", "vf"), False)
+        return None
+    path_verdict = {}
+    if loop_next:
+        nb_, nt_ = loop_next[0]
+        sw_ = f.blocks[nt_["target"]]["term"]
+        if sw_["k"] == "switch":
+            start_ = dict(zip(sw_["values"], sw_["targets"])).get(1)
+            push_blocks = {b_ for b_, _ in pushes}
+            hdr_blocks = {nb_}
+            if start_ is not None:
+                ps_ = boolpaths.paths(f, start_, lambda bb: "push" if bb in push_blocks else ("next" if bb in hdr_blocks else None),
+                                      lambda pl: None, call_atom=call_atom, max_paths=20000)
+                for b_, _ in pushes:
+                    mine = [p_ for p_ in ps_ if p_.end == ("push", b_)]
+                    if not mine:
+                        continue
+                    D, R, V = ("call", "deleted"), ("call", "root"), ("call", "vf")
+                    path_verdict[b_] = (all(p_.cons.get(D) is False for p_ in mine), all(p_.cons.get(R) is True for p_ in mine),
+                                        all(p_.cons.get(V) is not False for p_ in mine) and any(p_.cons.get(V) is True for p_ in mine))
     for b, t in pushes:
         g1 = guard(b, "SegmentReader::is_deleted", False)
         g2 = guard(b, "reader::passes_root_filter", True)
+        if b in path_verdict:
+            g1 = g1 or path_verdict[b][0]
+            g2 = g2 or path_verdict[b][1]
         # the vector filter: either guarded by passes_filter == true, or the push is on the None arm of the optional filter
         g3 = guard(b, "::passes_filter", True)
         if not g3:
@@ -88,7 +133,9 @@ def run(ctx, progs):
                     loop_heads = [x for x, tt in f.calls() if any("ForLoop" in m for m in (tt.get("macros") or []))]
                     if fail is not None and b not in f.reachable_from(fail, stop=loop_heads):
                         vf_ok = True
-        ok = ok and vf_ok
+        if b in path_verdict and path_verdict[b][2]:
+            vf_ok = True
+        ok = g1 and g2 and boost and vf_ok
         why = []
         if not g1:
             why.append("not behind `!is_deleted`")
@@ -136,7 +183,7 @@ def run(ctx, progs):
                "build_vector_plan can add a clause without comparing the query vector's length with the field's dimension: a vector of "
                "the wrong dimension is searched instead of rejected", "%s:%s" % (g.file, g.line))
     # ---- (c)
-    m = P.fn("searchlite_core::vectors::metric_similarity")
+    m = P.inlined("searchlite_core::vectors::metric_similarity", depth=1, keep=("searchlite_core::vectors::l2_distance",))  # a dot-product helper is read in place
     adt = P.adts.get("searchlite_core::vectors::VectorMetric") or P.adts.get("searchlite_core::api::types::VectorMetric")
     if ctx.anchor("R29.c", m, "vectors::metric_similarity"):
         ctx.saw(m)
